@@ -1,4 +1,5 @@
 import SamplyModel.Lemmas.BreakpadReading
+import SamplyModel.Lemmas.BreakpadStored
 /-!
 # C10 — the Breakpad symbol index is independent of chunking and agrees with the .sym text
 
@@ -113,6 +114,83 @@ theorem C10_self_map_no_unwrap_panic (pick : Pick) (text : List UInt8) (hlen : t
       simp only [hi] at h
       obtain ⟨ix, hp, _⟩ := C10_creator_roundtrip pick [text] bytes (by simpa using hlen) hi
       simp [hp] at h
+
+/-- **A half-written `.symindex` is never accepted.** Every proper prefix of a serialized index (any index
+`serialize_to_bytes` can write without panicking) is rejected by `parse_symindex_file`: the last table ends
+exactly at the end of the file and every table is bounds-checked. -/
+theorem C10_truncated_index_rejected (ix : Index) (hs : serializeSafe ix = true) (n : Nat)
+    (hn : n < (serialize ix).length) : parseSymindex ((serialize ix).take n) = none :=
+  parse_truncated ix hs n hn
+
+/-- … hence a symbol map that is offered a truncated copy of an index the creator produced (from any text,
+in any chunking — it need not even be the index of this text) behaves exactly like the self-indexing map. -/
+theorem C10_truncated_stored_ignored (pick : Pick) (text : List UInt8) (chunks : List (List UInt8))
+    (bytes : List UInt8) (h : index pick chunks = .ok bytes) (n : Nat) (hn : n < bytes.length) :
+    mapStored pick text (some (bytes.take n)) = mapSelf pick text := by
+  obtain ⟨st, _, _, he⟩ := index_spec pick chunks
+  rw [he] at h
+  have hrej : parseSymindex (bytes.take n) = none := by
+    cases hm : st.hasModule with
+    | false => simp [hm] at h
+    | true =>
+      simp only [hm, if_true] at h
+      by_cases hs : serializeSafe (st.toIndex pick) = true
+      · simp only [hs, if_true, Outcome.ok.injEq] at h
+        subst h
+        exact parse_truncated _ hs n hn
+      · simp [hs] at h
+  exact C10_stored_fallback pick text (some (bytes.take n)) (by simpa using hrej)
+
+/-- A lookup through ANY index that `parse_symindex_file` accepts — the index of another file, a corrupted
+one — cannot hit the out-of-range `symbol_entries[index]` (the two symbol arrays of a parsed index have the
+length the header announces); offsets that point outside the text give "not found". -/
+theorem C10_parsed_index_lookup_no_panic (bs : List UInt8) (ix : Index) (h : parseSymindex bs = some ix)
+    (text : List UInt8) (a : Nat) : lookup text ix a ≠ .panic :=
+  lookup_parsed_no_panic bs ix h text a
+
+/-- **The two index builders of wholesym** (`parse_sym_file_into_index`: 2 MiB `read`s of the `.sym` file,
+breakpad.rs:267-290; the download consumer: one `consume` per `read` of the response body,
+breakpad.rs:163-171 + downloader.rs:326-344) compute the index of the whole text, whatever lengths the
+reads return (`lens`: oracle for short reads). -/
+theorem C10_wholesym_index (pick : Pick) (lens : List Nat) (text : List UInt8) :
+    wsIndex pick lens text = index pick [text] :=
+  wsIndex_eq pick lens text
+
+/-- A local `.sym` file under wholesym with a symindex cache directory and no `.symindex` yet: the map is
+the self-indexing map, and the `.symindex` written is the index of the text (no file when the text has no
+MODULE line). -/
+theorem C10_wholesym_local_fresh (pick : Pick) (lens : List Nat) (text : List UInt8) :
+    (wsLocalMap pick lens text none).1 = mapSelf pick text ∧
+    ((tag tMODULE_ text).isSome = true →
+      (wsLocalMap pick lens text none).2 =
+        match index pick [text] with | .ok b => .file b | .err => .absent | .panic => .panic) := by
+  unfold wsLocalMap
+  by_cases hm : (tag tMODULE_ text).isNone = true
+  · refine ⟨?_, ?_⟩
+    · simp only [hm, if_true]; unfold mapSelf; simp [hm]
+    · intro h; cases ht : tag tMODULE_ text <;> simp_all
+  · simp only [hm, Bool.false_eq_true, if_false, wsEnsureSymindex, wsIndex_eq]
+    cases hi : index pick [text] with
+    | panic =>
+      refine ⟨?_, fun _ => rfl⟩
+      simp only
+      rw [mapSelf_eq]; simp [hm, hi]
+    | err => exact ⟨C10_stored_fallback pick text none rfl, fun _ => rfl⟩
+    | ok b =>
+      refine ⟨?_, fun _ => rfl⟩
+      exact mapStored_eq_mapSelf pick text [text] b (by simp) hi
+
+/-- An existing `.symindex` that does not parse (empty, truncated, wrong magic, …) is left alone and
+ignored: the map is the self-indexing one. (`ensure_symindex` reuses whatever file is there; the
+validation happens in `make_index_storage`.) -/
+theorem C10_wholesym_local_stale_rejected (pick : Pick) (lens : List Nat) (text b : List UInt8)
+    (h : parseSymindex b = none) :
+    wsLocalMap pick lens text (some b) = (mapSelf pick text, .file b) := by
+  unfold wsLocalMap
+  by_cases hm : (tag tMODULE_ text).isNone = true
+  · simp only [hm, if_true]; unfold mapSelf; simp [hm]
+  · simp only [hm, Bool.false_eq_true, if_false, wsEnsureSymindex]
+    rw [C10_stored_fallback pick text (some b) (by simpa using h)]
 
 /-- Before fix c4b9d51a an `INLINE_ORIGIN` record inside a FUNC block made the whole block unparseable
 (every lookup in that function returned nothing); the repaired parser skips it. -/
